@@ -2,6 +2,12 @@
 Proved part: the bonding step (Resolve/CutBonding.v, re-checked against the regenerated
 `compatible`); per run the hypothesis of that theorem is tested on the tables the implementation
 built (`dedicated_b`) and the bonds it created are compared with the cut pairs (Coq, `cut_fail`).
+Graph level (theories/Compose): for every generated cut the cut record C, the template dictionary exactly as
+read_fragments returned it, the base graph exactly as read_cgsmiles returned it and the implementation's fine graph
+right after edges_from_bonding_descrpt are evaluated in Coq (Compose/CutRunCheck.v): the hypotheses of
+`cut_bonding_skeleton` hold of the implementation's own templates / base graph (121, 122), its conclusion holds of the
+implementation's own fine graph (123), and the resolver model run on those templates and that base graph returns
+exactly that fine graph (correspondence, "124").  Compose/CutRunSound.v proves what verdict 0 means.
 Search part (never a proof): the end-to-end result is compared with the generator's molecule
 (element, charge, bond orders, hydrogen counts) and with resolving the uncut molecule."""
 import contextlib
@@ -26,16 +32,35 @@ def _mol(atoms, bonds):
     return molgen.mol_dump(m)
 
 
+# abbreviations for the graph literals of the graph-level clause (elaborating a large literal is the cost of a case
+# file; the abbreviations halve it)
+_ABBR_KEYS = ['element', 'charge', 'aromatic', 'fragname', 'fragid', 'weight', 'atomname', 'hcount', '_atom_str', '_pos',
+              '_bond_str', 'order', 'bonding', 'mapping']
+_ABBR = [('(S "%s")' % k, 'k_%s' % k.strip('_')) for k in _ABBR_KEYS] + [
+    ('(VInt (0)%Z)', 'v_0'), ('(VInt (1)%Z)', 'v_1'), ('(VInt (2)%Z)', 'v_2'), ('(VInt (3)%Z)', 'v_3'),
+    ('(VBool false)', 'v_f'), ('(VBool true)', 'v_t'), ('(VStr (S "C"))', 'v_C'), ('(VStr (S "c"))', 'v_c'),
+    ('(VFlt (S "1.5"))', 'v_15'), ('(VStr (S ""))', 'v_e')]
+_ABBR_DEFS = ''.join('Definition %s := %s.\n' % (v, k) for k, v in _ABBR)
+
+
+def _compress(text):
+    for k, v in _ABBR:
+        text = text.replace(k, v)
+    return text
+
+
 class C01(C03):
     id = 'C01'
     level = 'proof'
     technique = ('Coq proof of the bonding step (unique labels force exactly the cut bonds; on the regenerated '
                  '`compatible`), its hypothesis tested and its conclusion compared on the implementation per run; '
                  'end-to-end molecule equality decided by a generated search (molecule x partition x rendering)')
-    vo_deps = ['theories/Resolve/CutCheck.vo']
+    vo_deps = ['theories/Resolve/CutCheck.vo', 'theories/Compose/CutRunCheck.vo']
     prop_file = 'theories/Properties/C01.v'
     case_requires = ('From Coq Require Import String.\nFrom Coq Require Import List Ascii ZArith Bool.\n'
-                     'From CGV Require Import Base.PyBase Base.PyVal Resolve.Bonding Resolve.BondingCheck Resolve.CutCheck.')
+                     'From CGV Require Import Base.PyBase Base.PyVal Base.NxGraph Resolve.Bonding Resolve.BondingCheck Resolve.CutCheck '
+                     'Compose.CutModel Compose.CutRunCheck.\nOpen Scope Z_scope.\n' + _ABBR_DEFS)
+    shard = 30
     case_type = 'cut_case'
     corr_fn = 'cut_corr'
     fail_fn = 'cut_fail_judged'
@@ -51,6 +76,13 @@ class C01(C03):
                  205: 'bonding step: a descriptor was used for more bonds than it was written',
                  206: 'bonding step: fewer bonds than the edge order although a compatible pair was left',
                  209: 'bonding step: the implementation raised an unexpected exception',
+                 121: 'graph level: a fragment graph the implementation read is not the template of its part of the cut '
+                      '(node numbering, element/charge/aromatic/hcount, descriptors on the atoms that lost a bond, inner bonds '
+                      'with their orders), or an atom lacks element / an integer hcount',
+                 122: 'graph level: the base graph the implementation read is not a base graph of the cut (one node per '
+                      'part in order with its name, one edge per bonded pair of parts, order = number of cut bonds)',
+                 123: 'graph level: the fine graph right after the bonding step is not the skeleton of the molecule '
+                      '(keys offset+index, element/charge/aromatic per atom, exactly the bonds of the molecule with their orders)',
                  101: 'resolved molecule differs from the original molecule (elements, charges, bond orders, H counts)',
                  102: 'resolving the uncut molecule as a single fragment differs from the original molecule',
                  103: 'resolver raised an exception on a valid cut string'}
@@ -98,7 +130,59 @@ class C01(C03):
                 res[key] = 'EXC %s: %s' % (type(exc).__name__, str(exc)[:80])
         # cut pairs per base edge in the coordinates of the bonding step (for dedicated_b / cut_fail)
         res['cuts'] = self._cut_pairs(case)
+        if case.get('glevel'):
+            res['gl'] = self._graph_level(case)
         return res
+
+    def _graph_level(self, case):
+        """Gallina literals of what the implementation read and built: templates, base graph, fine graph after the
+        bonding step (None when it raised / was not reached); the templates' hcount per atom of the cut"""
+        from cgsmiles.resolve import MoleculeResolver
+        try:
+            resolver = MoleculeResolver.from_string(case['s'])
+        except Exception:
+            return None
+        fd = resolver.fragment_dicts[0]
+        out = {'base': lit.nxgraph(copy.deepcopy(resolver.molecule)),
+               'fd': lit.lst([lit.pair(lit.s(nm), lit.nxgraph(g)) for nm, g in fd.items()])}
+        hc = []
+        for name, ids in case['glevel']['parts']:
+            g = fd.get(name)
+            for i, a in enumerate(ids):
+                h = g.nodes[i].get('hcount') if (g is not None and i in g.nodes) else None
+                hc.append([a, h if (isinstance(h, int) and not isinstance(h, bool)) else (None if h is None else float(h))])
+        out['hcount'] = hc
+        rec = {}
+        orig = resolver.edges_from_bonding_descrpt
+
+        def wrapped(all_atom=True):
+            rec['aa'] = bool(all_atom)
+            orig(all_atom=all_atom)
+            rec['m2'] = lit.nxgraph(copy.deepcopy(resolver.molecule))
+        resolver.edges_from_bonding_descrpt = wrapped
+        try:
+            resolver.resolve()
+        except Exception:
+            pass
+        out['m2'] = rec.get('m2')
+        out['aa'] = rec.get('aa', True)
+        return out
+
+    @staticmethod
+    def _cut_literal(gl, hcount):
+        hc = dict((a, h) for a, h in hcount)
+        atoms = []
+        for a, el, ch, ar in gl['atoms']:
+            d = {'element': el, 'charge': ch, 'aromatic': bool(ar)}
+            if hc.get(a) is not None:
+                d['hcount'] = hc[a]
+            atoms.append(lit.pair(lit.z(a), lit.attrs(d)))
+        bonds = ['{| cb_u := %s; cb_v := %s; cb_ord := %s; cb_lab := %s; cb_dollar := %s |}'
+                 % (lit.z(u), lit.z(v), lit.pyval(o), lit.s(lab), lit.b(dl)) for u, v, o, lab, dl in gl['bonds']]
+        parts = [lit.pair(lit.s(nm), lit.lst([lit.z(a) for a in ids])) for nm, ids in gl['parts']]
+        dord = [lit.pair(lit.z(a), lit.lst([lit.s(t) for t in ts])) for a, ts in gl['dord']]
+        return '{| c_atoms := %s; c_bonds := %s; c_parts := %s; c_dord := %s |}' % (
+            lit.lst(atoms), lit.lst(bonds), lit.lst(parts), lit.lst(dord))
 
     def _cut_pairs(self, case):
         """[(a, b, [(u, d, v, t)])] with a,b coarse keys as the base graph numbers them and u,v the
@@ -132,6 +216,8 @@ class C01(C03):
             tags.append('charged')
         if case.get('kekule'):
             tags.append('kekule-written-ring')
+        if impl.get('gl') is not None and impl['gl'].get('m2') is not None:
+            tags.append('graph-level')
         return ' '.join(tags)
 
     def known_class(self, case, impl, code):
@@ -156,10 +242,17 @@ class C01(C03):
                     ['(%s, %s, %s, %s)' % (lit.z(u), lit.s(d), lit.z(v), lit.s(t)) for u, d, v, t in L])))
             cl = lit.lst(rows)
             judged = 'true'
-        return '({| cc_case := %s; cc_cuts := %s |}, %s)' % (base, cl, judged)
+        gl = impl.get('gl')
+        if gl is None or 'skip' in impl['bonding']:
+            run = 'None'
+        else:
+            run = _compress('(Some {| rc_cut := %s; rc_fd := %s; rc_base := %s; rc_aa := %s; rc_impl := %s |})'
+                            % (self._cut_literal(case['glevel'], gl['hcount']), gl['fd'], gl['base'], lit.b(gl['aa']),
+                               'None' if gl['m2'] is None else '(Some %s)' % gl['m2']))
+        return '({| cc_case := %s; cc_cuts := %s |}, %s, %s)' % (base, cl, judged, run)
 
 
 PROP = C01()
-PROP.case_type = '(cut_case * bool)'
-PROP.corr_fn = '(fun c : cut_case * bool => cut_corr (fst c))'
-PROP.fail_fn = ('(fun c : cut_case * bool => if snd c then match cut_fail (fst c) with 1%nat => 0%nat | n => n end else 0%nat)')
+PROP.case_type = 'c01_case'
+PROP.corr_fn = 'c01_corr'
+PROP.fail_fn = 'c01_fail'
